@@ -35,6 +35,22 @@ ALT_ENCODING = {("FixedWidthBinning", "min"): ("bin_times_min", "bin_shift"), ("
                 ("BinningBase", "numpy_bins"): ("bins",)}
 
 
+# dictionary key -> attribute (with or without underscore) holding the constructor parameter of that key
+BINNING_KEY_ATTR = {"bins": "bins", "numpy_bins": "numpy_bins", "bin_count": "bin_count", "bin_width": "bin_width", "bin_shift": "shift",
+                    "bin_times_min": "times_min", "align": "align", "log_min": "log_min", "log_width": "log_width",
+                    "adaptive": "adaptive", "includes_right_edge": "includes_right_edge"}
+
+
+def _reads_attr(text: str, base: str) -> bool:
+    t = text
+    for w in ("float(", "int(", "bool("):
+        if t.startswith(w) and t.endswith(")"):
+            t = t[len(w):-1]
+    if t.endswith(".tolist()"):
+        t = t[:-len(".tolist()")]
+    return t in (f"self.{base}", f"self._{base}")
+
+
 def run(ctx):
     m = ctx.model
     HB, BB = m.cls("HistogramBase"), m.cls("BinningBase")
@@ -189,8 +205,14 @@ def run(ctx):
         for k, d in keys.items():
             land = init_landing(m, c, k)
             ikey = f"{c.name}:key:{k}"
+            base = BINNING_KEY_ATTR.get(k)
+            ok_src = base is None or all(_reads_attr(v, base) for v in d["values"])
             if d["paths_with"] != d["paths_total"]:
                 ctx.bad("C08.b", ikey, f"key '{k}' is written conditionally", ud[1].where)
+            elif not ok_src:
+                ctx.bad("C08.b", ikey, f"key '{k}' is written from {sorted(d['values'])}, not (only) from the attribute `{base}` the constructor "
+                        "parameter of that name is stored in - another representation need not carry the same numbers "
+                        "(e.g. edges instead of (left, right) pairs)", ud[1].where)
             elif land[0] == "param" or (c.name, k) in BINNING_EXCEPTIONS:
                 ctx.ok("C08.b", ikey, f"'{k}' accepted by {land[1].name if land[1] else c.name}.__init__ ({land[0]})"
                        + (": " + BINNING_EXCEPTIONS[(c.name, k)] if (c.name, k) in BINNING_EXCEPTIONS and land[0] != "param" else ""), ud[1].where)
